@@ -82,8 +82,10 @@ func c17sRead(s *Sys) c17sKey {
 		minEnc: c17sInt(resp.Data["min_encryption_version"]), minAvail: c17sInt(resp.Data["min_available_version"]), ok: true}
 }
 
-func c17sDecrypt(s *Sys, ct string) (string, bool) {
-	resp, err := s.Req(s.Root, logical.UpdateOperation, "transit/decrypt/k", map[string]interface{}{"ciphertext": ct})
+func c17sDecrypt(s *Sys, ct string) (string, bool) { return c17sDecryptKey(s, "k", ct) }
+
+func c17sDecryptKey(s *Sys, key, ct string) (string, bool) {
+	resp, err := s.Req(s.Root, logical.UpdateOperation, "transit/decrypt/"+key, map[string]interface{}{"ciphertext": ct})
 	if !OK(resp, err) || resp == nil || resp.Data == nil {
 		return ErrText(resp, err), false
 	}
@@ -95,6 +97,7 @@ type c17sOut struct {
 	ok  bool
 	txt string
 	ct  string
+	key string // the key the ciphertext was produced under ("" = k)
 }
 
 func c17sDo(s *Sys, im *c17sImage, op string) c17sOut {
@@ -122,6 +125,17 @@ func c17sDo(s *Sys, im *c17sImage, op string) c17sOut {
 		}
 	case "read":
 		resp, err = s.Req(s.Root, logical.ReadOperation, "transit/keys/k", nil)
+	case "encnew":
+		// encrypt under a key that does not exist yet: it is created on the fly
+		o.key = "n"
+		resp, err = s.Req(s.Root, logical.UpdateOperation, "transit/encrypt/n", map[string]interface{}{"plaintext": c17sPlain})
+		if OK(resp, err) && resp != nil && resp.Data != nil {
+			o.ct, _ = resp.Data["ciphertext"].(string)
+		}
+	case "createn":
+		resp, err = s.Req(s.Root, logical.UpdateOperation, "transit/keys/n", map[string]interface{}{"type": "aes256-gcm96"})
+	case "rotaten":
+		resp, err = s.Req(s.Root, logical.UpdateOperation, "transit/keys/n/rotate", nil)
 	}
 	o.ok = OK(resp, err)
 	o.txt = ErrText(resp, err)
@@ -209,7 +223,11 @@ func c17sBody(t *testing.T, im *c17sImage, ops []string) sched.Body {
 					if enc3 && ops[i] == "encrypt2" {
 						// acknowledged concurrently: either order is a legal linearisation
 					}
-					if p, ok := c17sDecrypt(sx, o.ct); !ok || p != c17sPlain {
+					key := o.key
+					if key == "" {
+						key = "k"
+					}
+					if p, ok := c17sDecryptKey(sx, key, o.ct); !ok || p != c17sPlain {
 						fail("handed-out-ciphertext-undecryptable", fmt.Sprintf("%s: ciphertext %s returned by %s does not decrypt to its plaintext (%v %s)", when, o.ct[:12], ops[i], ok, p))
 					}
 				}
@@ -278,6 +296,10 @@ func TestVerifC17S(t *testing.T) {
 					res.Sample(map[string]interface{}{"scenario": name, "executions_in_this_shard": ex})
 				}
 			}
+		}
+		for _, ops := range [][]string{{"encnew", "encnew"}, {"encnew", "createn"}, {"createn", "createn"}, {"encnew", "rotaten"}} {
+			name := fmt.Sprintf("S:%s:nontxn=%v", strings.Join(ops, "+"), nonTxn)
+			exploreScenario(res, "c17", name, map[string]interface{}{"ops": ops, "nontxn": nonTxn}, c17sBody(t, im, ops), bound, false, &item)
 		}
 		if vout.Thorough() {
 			for _, ops := range [][]string{{"cfgdec2", "decrypt1", "encrypt"}, {"rotate", "encrypt", "cfgenc3"}, {"rotate", "rotate", "encrypt"}, {"cfgdec2", "rotate", "decrypt1"}} {
